@@ -196,10 +196,14 @@ impl ServerState {
   pub fn remove(&mut self, module_references: &[ModuleReference]) {
     let recheck_set = self.dep_graph.affected_set(module_references.iter().copied().collect());
     for mod_ref in module_references {
-      self.string_sources.remove(mod_ref);
-      self.parsed_modules.remove(mod_ref);
-      self.checked_modules.remove(mod_ref);
-      self.global_cx.remove(mod_ref);
+      // ROOT is not a module of the workspace: the builtin signatures live under it. The language
+      // server maps a URL it has never seen to ROOT, so deleting such a file must not drop them.
+      if *mod_ref != ModuleReference::ROOT {
+        self.string_sources.remove(mod_ref);
+        self.parsed_modules.remove(mod_ref);
+        self.checked_modules.remove(mod_ref);
+        self.global_cx.remove(mod_ref);
+      }
     }
     self.dep_graph = DependencyGraph::new(&self.parsed_modules);
     self.recheck(ErrorSet::new(), &HashSet::new(), &recheck_set);
